@@ -17,7 +17,7 @@ func init() {
 		ID:    "C03",
 		Level: "exploration",
 		Rule: "clients on one bucket prefix run under a deterministic scheduler that gates their object-store requests (one client runs at a time; logical time advances on every grant, call and return). Roles: committer (already open, one autocommit INSERT of a unique marker row = PUT node, PUT version, retire parent), merger / read-write opener (CREATE VIRTUAL TABLE, commits the merge of 2 unmerged versions), read-only opener, refresher (s3db_refresh on an open table); every open/refresh is followed by SELECT and recorded as read -> marker set. " +
-			"Exhaustive cases: for a two-client configuration ALL interleavings of the version-namespace requests (LIST, and GET/PUT/DELETE under root/; node objects are content-addressed and immutable, so they commute) are enumerated by depth-first replay of grant prefixes. Random cases: 3-4 clients, every request gated, 20 seeded random-priority schedules per case. " +
+			"Exhaustive cases: for a two-client configuration ALL interleavings of the version-namespace requests (LIST, and GET/PUT/DELETE under root/; node objects are content-addressed and immutable, so they commute) are enumerated by depth-first replay of grant prefixes. Random cases: 3-4 clients, every request gated, 20 seeded random-priority schedules per case. In some configurations the first GET of a retired version (root/merged/) by the later openers fails with an injected storage error: that open or refresh may fail (it then observed nothing) but may not succeed without the version. " +
 			"Each history (call/return at logical time) is checked with porcupine against a grow-only set (add(i); read returns exactly the current set, which always contains the initial rows), then with scheduling off a read-write and a read-only open must contain every acknowledged marker. " +
 			"non-trivial = a history with >=1 add concurrent with >=1 read; distinct = hash of the executed grant sequence (counted under 'distinct')",
 		Flavours: []string{"race"},
@@ -25,7 +25,7 @@ func init() {
 			if tier == "thorough" {
 				return len(c03Exhaustive) + 1000
 			}
-			return 3 + 20
+			return 4 + 20
 		},
 		MinNT: func(tier string) int {
 			if tier == "thorough" {
@@ -57,12 +57,17 @@ type c03config struct {
 	Roles   []c03role
 	Full    bool // start from the bucket with two unmerged versions
 	GateAll bool
+	// FaultRetired: the first GET of a retired version (root/merged/) by each
+	// opener or refresher after client 0 fails; such an operation may fail (it is then not
+	// part of the history) but must not succeed without that version's rows
+	FaultRetired bool
 }
 
 var c03Exhaustive = []c03config{
 	{Name: "committer x ro-opener", Roles: []c03role{{"committer", 10}, {"open-ro", 0}}},
 	{Name: "committer x rw-opener", Roles: []c03role{{"committer", 10}, {"open-rw", 0}}},
 	{Name: "merger x ro-opener", Roles: []c03role{{"open-rw", 0}, {"open-ro", 0}}, Full: true},
+	{Name: "committer x ro-opener whose first read of a retired version fails", Roles: []c03role{{"committer", 10}, {"open-ro", 0}}, FaultRetired: true},
 	{Name: "committer x refresher", Roles: []c03role{{"committer", 10}, {"refresher", 0}}},
 	{Name: "merger x rw-opener", Roles: []c03role{{"open-rw", 0}, {"open-rw", 0}}, Full: true},
 	{Name: "merger x refresher", Roles: []c03role{{"open-rw", 0}, {"refresher", 0}}, Full: true},
@@ -74,6 +79,8 @@ var c03Exhaustive = []c03config{
 	{Name: "committer x merger (2 unmerged versions)", Roles: []c03role{{"committer", 10}, {"open-rw", 0}}, Full: true},
 	{Name: "committer x ro-opener, every request gated (node objects too)", Roles: []c03role{{"committer", 10}, {"open-ro", 0}}, GateAll: true},
 	{Name: "committer x rw-opener, every request gated (node objects too)", Roles: []c03role{{"committer", 10}, {"open-rw", 0}}, GateAll: true},
+	{Name: "merger x rw-opener whose first read of a retired version fails", Roles: []c03role{{"open-rw", 0}, {"open-rw", 0}}, Full: true, FaultRetired: true},
+	{Name: "merger x refresher whose first read of a retired version fails", Roles: []c03role{{"open-rw", 0}, {"refresher", 0}}, Full: true, FaultRetired: true},
 }
 
 type c03in struct {
@@ -176,6 +183,7 @@ type c03result struct {
 	timeout  bool
 	final    []uint64
 	finalErr string
+	faulted  int
 }
 
 func readSet(cn *Conn, t string) (uint64, error) {
@@ -227,8 +235,11 @@ func c03Run(c *Case, w *c03world, cfg c03config, choose func(step int, enabled [
 		st.Restore(w.full)
 	}
 	sc := newSched(names, cfg.GateAll)
-	for _, n := range names {
+	for i, n := range names {
 		st.Client(n).SetGate(sc)
+		if k := cfg.Roles[i].Kind; cfg.FaultRetired && i >= 1 && k != "committer" && k != "committer2" {
+			st.Client(n).AddFault(fs3.Fault{Op: fs3.OpGet, KeyContain: "root/merged/", Action: "error"})
+		}
 	}
 	var opsMu = make(chan struct{}, 1)
 	opsMu <- struct{}{}
@@ -291,6 +302,13 @@ func c03Run(c *Case, w *c03world, cfg c03config, choose func(step int, enabled [
 					set, err = readSet(cn, t)
 				}
 				ret := sc.Tick()
+				if err != nil && cfg.FaultRetired && fs3.IsInjected(err) {
+					// a failed open or refresh observed nothing
+					<-opsMu
+					res.faulted++
+					opsMu <- struct{}{}
+					return
+				}
 				if err != nil {
 					<-opsMu
 					res.failed = append(res.failed, fmt.Sprintf("%s failed: %v", role.Kind, err))
@@ -353,6 +371,7 @@ func c03Judge(c *Case, cfg c03config, w *c03world, res *c03result, sigp string) 
 	}
 	c.Count("histories_checked", 1)
 	c.Count("operations", int64(len(res.ops)))
+	c.Count("operations_failed_on_injected_fault", int64(res.faulted))
 	r, _ := porcupine.CheckOperationsVerbose(c03Model(init), res.ops, 60*time.Second)
 	switch r {
 	case porcupine.Unknown:
@@ -418,7 +437,7 @@ func runC03(c *Case) {
 		c.Violate("C03:setup", err.Error(), nil)
 		return
 	}
-	nex := 3
+	nex := 4
 	if c.Tier == "thorough" {
 		nex = len(c03Exhaustive)
 	}
@@ -485,7 +504,7 @@ func runC03(c *Case) {
 	// random: 3-4 clients, every request gated
 	r := c.R
 	k := r.Range(3, 4)
-	cfg := c03config{GateAll: true, Full: r.Bool()}
+	cfg := c03config{GateAll: true, Full: r.Bool(), FaultRetired: r.Intn(3) == 0}
 	kinds := []string{"committer", "committer", "open-ro", "open-rw", "refresher"}
 	hasReader, hasWriter := false, false
 	for i := 0; i < k; i++ {
@@ -510,6 +529,9 @@ func runC03(c *Case) {
 	cfg.Name = "random " + strings.Join(nm, " x ")
 	if cfg.Full {
 		cfg.Name += " (2 unmerged versions)"
+	}
+	if cfg.FaultRetired {
+		cfg.Name += " (later openers' first read of a retired version fails)"
 	}
 	for s := 0; s < 20 && c.Res.Status != "violated"; s++ {
 		// random priorities with a few change points (PCT style)
